@@ -1,4 +1,5 @@
 import OpenHTF.Model.TestObject
+import OpenHTF.Model.TestObjectConc
 import OpenHTF.Proofs.C08
 /-
 C09 — execute() hands the record to every callback exactly once; the Test object is deregistered
@@ -119,3 +120,70 @@ theorem c09_reexecutable (s : TS) (h : s.running = true) : (step (step s .finish
 example : (run {} [.begin, .begin, .finish, .begin, .finish]).2 = [.started, .refused, .returned, .started, .returned] := by decide
 
 end OpenHTF.TestObject
+
+namespace OpenHTF.TestObjectConc
+
+/-- the lock and the executor slot agree with the program counters -/
+structure Inv (s : S) : Prop where
+  lockOwner : ∀ t, s.lock = some t ↔ (s.pc t = .inLock ∨ s.pc t = .creating ∨ s.pc t = .started)
+  execOwner : ∀ t, s.exec = some t ↔ (s.pc t = .started ∨ s.pc t = .running)
+  creatingFree : ∀ t, s.pc t = .creating → s.exec = none
+  liveCount : s.live = (if s.exec.isSome then 1 else 0)
+  maxOne : s.maxLive ≤ 1
+
+theorem inv_init : Inv {} := by
+  constructor <;> simp
+
+theorem inv_step (s s' : S) (a : Act) (h : Inv s) (hs : step s a = some s') : Inv s' := by
+  obtain ⟨h1, h2, h3, h4, h5⟩ := h
+  cases a <;> simp only [step] at hs <;> (repeat' split at hs) <;> (try cases hs) <;> constructor
+  all_goals (try simp only [upd])
+  all_goals (try simp only [Option.not_isSome_iff_eq_none] at *)
+  all_goals (try (intro x; by_cases hx : x = _ <;> (try subst hx) <;> grind (splits := 30)))
+  all_goals (try grind (splits := 30))
+
+theorem inv_run : ∀ (as : List Act) (s s' : S), Inv s → run s as = some s' → Inv s'
+  | [], s, s', h, hr => by simp [run] at hr; subst hr; exact h
+  | a :: as, s, s', h, hr => by
+    simp only [run] at hr
+    split at hr
+    · cases hr
+    · rename_i s1 hs1
+      exact inv_run as s1 s' (inv_step s s1 a h hs1) hr
+
+/-- C09 (overlapping execute() from several threads): under EVERY interleaving of any number of threads calling
+    execute() on one Test object, at most one executor of that Test is alive at a time: two threads are never both
+    between creating their executor and clearing it. -/
+theorem c09_at_most_one_execution_at_a_time (as : List Act) (s : S) (hr : run {} as = some s) (t u : Nat)
+    (ht : active s t = true) (hu : active s u = true) : t = u := by
+  have h := inv_run as {} s inv_init hr
+  have e1 : s.exec = some t := (h.execOwner t).2 (by simp [active] at ht; exact ht)
+  have e2 : s.exec = some u := (h.execOwner u).2 (by simp [active] at hu; exact hu)
+  rw [e1] at e2; exact Option.some.inj e2
+
+/-- … and the ghost high-water mark of live executors never exceeds one -/
+theorem c09_live_executors_le_one (as : List Act) (s : S) (hr : run {} as = some s) : s.maxLive ≤ 1 ∧ s.live ≤ 1 := by
+  have h := inv_run as {} s inv_init hr
+  refine ⟨h.maxOne, ?_⟩
+  rw [h.liveCount]; split <;> omega
+
+/-- C09: a thread that looks at the executor slot while another thread's executor is alive is refused, and the
+    refusal changes nothing but releasing the lock -/
+theorem c09_concurrent_overlap_refused (s : S) (t u : Nat) (hu : active s u = true) (ht : s.pc t = .inLock)
+    (h : Inv s) : step s (.check t) =
+      some { s with pc := upd s.pc t .idle, lock := none, refused := s.refused + 1 } := by
+  have e : s.exec = some u := (h.execOwner u).2 (by simp [active] at hu; exact hu)
+  simp [step, ht, e]
+
+/-- the check-before-the-lock variant is NOT safe: two threads both pass the check, then both create an executor -/
+theorem unlocked_check_lets_two_executions_overlap :
+    ∃ s, urun {} [.check 0, .check 1, .acquire 0, .create 0, .release 0, .acquire 1, .create 1] = some s ∧ s.maxLive = 2 := by
+  refine ⟨_, rfl, ?_⟩
+  decide
+
+example : ∃ s, run {} [.enter 0, .enter 1, .acquire 0, .check 0, .create 0, .release 0, .acquire 1, .check 1, .finish 0,
+    .enter 1, .acquire 1, .check 1, .create 1, .release 1, .finish 1] = some s ∧ s.refused = 1 ∧ s.completed = 2 := by
+  refine ⟨_, rfl, ?_⟩
+  decide
+
+end OpenHTF.TestObjectConc
